@@ -379,6 +379,56 @@ def gen_bl_boundary(rng, count):
         yield dict(unit='break_by_list', elected=el, list=lst)
 
 
+
+# ------------------------------------------------------------------ alternative thresholds with a previous-gains part (implementation side)
+def _alt_part(pc):
+    import votelib.evaluate.threshold as th
+    kind, t, ae = pc
+    if kind == 'abs':
+        return th.AbsoluteThreshold(t, accept_equal=ae)
+    if kind == 'rel':
+        return th.RelativeThreshold(Fraction(t), accept_equal=ae)
+    return th.PreviousGainThreshold(th.AbsoluteThreshold(min(t, 3), accept_equal=ae))
+
+
+def alt_prev_one(ctx, case):
+    """AlternativeThresholds passes the UNION of its parts - also of a part that looks at the seats gained before
+    (PreviousGainThreshold) and so may pass a party that has no votes entry at all; -> 1 if the case deviates"""
+    import votelib.evaluate.threshold as th
+    import votelib.evaluate.core as core
+    votes, prev, parts_cfg = dict(map(tuple, case['votes'])), dict(map(tuple, case['prev'])), case['parts']
+    ctx.evaluations += 1
+    ctx.dist['stream:alt-prev'] += 1
+    if sum(votes.values()) == 0 and any(pc[0] == 'rel' for pc in parts_cfg):
+        return 0
+    r = common.call_impl(lambda: th.AlternativeThresholds([_alt_part(pc) for pc in parts_cfg]).evaluate(dict(votes), dict(prev)), 5)
+    want = set()
+    for pc in parts_cfg:
+        part = _alt_part(pc)
+        want |= set(part.evaluate(dict(votes), dict(prev)) if core.accepts_prev_gains(part) else part.evaluate(dict(votes)))
+    if any(k not in votes for k in want):
+        ctx.nontrivial.add(common.case_hash(case))
+    if r[0] != 'ok' or set(r[1]) != want or len(set(r[1])) != len(r[1]):
+        ctx.checker_false += 1
+        ctx.report('alt-prev', case, str(r[1:])[:300], str(sorted(want)), 'alternative thresholds return %s, the union of the parts is %s' % (r[1:], sorted(want)))
+        return 1
+    return 0
+
+
+def alt_prev_checks(ctx, count, rng):
+    bad = 0
+    for _ in range(count):
+        m = rng.randint(2, 5)
+        votes = {cname(k): rng.choice([0, 1, 5, 10, 40, 100]) for k in range(1, m + 1)}
+        prev = {cname(k): rng.randint(0, 3) for k in rng.sample(range(1, m + 3), rng.randint(0, m + 1))}     # may name parties without votes
+        parts_cfg = []
+        for _p in range(rng.randint(1, 3)):
+            kind = rng.choice(['abs', 'rel', 'prev'])
+            parts_cfg.append([kind, rng.choice([0, 1, 2, 5, 10, 50]) if kind != 'rel' else rng.choice(['0', '1/10', '1/3', '1/2']), rng.random() < 0.5])
+        bad += alt_prev_one(ctx, dict(unit='alt-prev', votes=[[k, v] for k, v in votes.items()], prev=[[k, v] for k, v in prev.items()], parts=parts_cfg))
+    ctx.streams['alt-prev'] = dict(cases=count, deviations=bad)
+
+
 def corpus():
     import os, json, glob
     for p in sorted(glob.glob(os.path.join(common.VERIF, 'corpus', ID, '*.json'))):
@@ -448,7 +498,11 @@ def explore(ctx, widen=1):
     run_cases(ctx, 'break-by-list', gen_bl(ctx.rng, ctx.n(500, 5000) * widen * dense('TieBreak')))
     run_cases(ctx, 'break-by-list-boundary', gen_bl_boundary(ctx.rng, ctx.n(1500, 15000) * widen * dense('TieBreak')))
     run_cases(ctx, 'quota-selector', gen_qsel_boundary(ctx.rng, ctx.n(800, 10000) * widen * dense('Approval')))
+    alt_prev_checks(ctx, ctx.n(600, 6000) * widen, ctx.rng)
 
 
 def replay(ctx, case, stream=None):
+    if case.get('unit') == 'alt-prev':
+        alt_prev_one(ctx, case)
+        return
     run_cases(ctx, 'replay', [case])
